@@ -462,7 +462,7 @@ def minimize_lbfgsb(
     # print(sf.scaling_factor)
 
     f0 *= sf.scaling_factor
-    grad *= sf.scaling_factor
+    grad = grad * sf.scaling_factor
     # Note, no need to further update anything because the scaling is handled by the
     # ScalarFunction instance
 
